@@ -59,6 +59,8 @@ structure Cls where
   pybase : Option Nat
   /-- XmlAttribute: the wrapped type -/
   target : Option Nat
+  /-- declared with `__mixin__ = True` -/
+  mixin : Bool := false
   /-- hardware bounds checked by the class's own `validate_native` -/
   lo : Option Int
   hi : Option Int
@@ -90,6 +92,8 @@ def AttrRec.pub (r : AttrRec) : Kw × Option Nat × Option Kw × Option Nat := (
 structure Heap where
   cls : List Cls
   attrs : List AttrRec
+  /-- `type_attrs` dicts of the protocol objects customisations may refer to (`customize(prot=p)`) -/
+  prots : List Kw
   deriving DecidableEq, Repr
 
 /-! ## behaviour switches and constants measured on /repo (T1) -/
@@ -107,6 +111,16 @@ inductive VarRule where
 inductive ColCopy where
   | deep     -- `deepcopy(cls.Attributes.sqla_column_args)`: the derived class gets a dict of its own   (good)
   | shallow  -- `copy(...)` of the pair: the dict inside is shared with the class derived from
+  deriving DecidableEq, Repr
+
+inductive ProtCopy where
+  | copied   -- `prot.type_attrs.copy()` is what the keywords are merged into                        (good)
+  | shared   -- the keywords of every `customize(prot=p)` end up in the protocol's own dict
+  deriving DecidableEq, Repr
+
+inductive MixinOrder where
+  | declared  -- the fields of `__mixin__` bases come first, in their own order                      (good)
+  | reversed  -- ... in reverse order
   deriving DecidableEq, Repr
 
 inductive DelayOrder where
@@ -145,7 +159,13 @@ structure Facts15 where
   /-- order in which `append_field` / `insert_field` apply the delayed child attributes -/
   delayAppend : DelayOrder
   delayInsert : DelayOrder
+  protCopy : ProtCopy
+  mixinOrder : MixinOrder
+  /-- `type_attrs` of the protocol objects of a history -/
+  prots : List Kw
   mslRule : MslRule
+  /-- `max_str_len = total_digits + mslExtra` (separator, sign, ...) -/
+  mslExtra : Nat
   colCopy : ColCopy
   /-- class namespaces / `dict(odict)` enumerate in insertion order (CPython >= 3.7) -/
   dictOrdered : Bool
@@ -300,7 +320,7 @@ def allocCls (c : Cls) : M Nat := fun h => .ok { h with cls := h.cls ++ [c] } h.
 
 /-- a class statement: the class and its own `Attributes` come into being together -/
 def allocBoth (r : AttrRec) (mk : Nat → Cls) : M Nat := fun h =>
-  .ok { cls := h.cls ++ [mk h.attrs.length], attrs := h.attrs ++ [r] } h.cls.length
+  .ok { h with cls := h.cls ++ [mk h.attrs.length], attrs := h.attrs ++ [r] } h.cls.length
 
 def Heap.updCls (h : Heap) (c : Nat) (f : Cls → Cls) : Heap :=
   match h.cls[c]? with
@@ -324,5 +344,7 @@ def modifyHeap (f : Heap → Heap) : M Unit := fun h => .ok (f h) ()
 def updCls (c : Nat) (f : Cls → Cls) : M Unit := fun h => .ok (h.updCls c f) ()
 def updCells (a : Nat) (f : AttrRec → AttrRec) : M Unit := fun h => .ok (h.updCells a f) ()
 def updCol (a : Nat) (d : Kw) : M Unit := fun h => .ok (h.updCol a d) ()
+/-- write into the `type_attrs` dict of protocol `p` -/
+def updProt (p : Nat) (d : Kw) : M Unit := fun h => .ok { h with prots := h.prots.set p d } ()
 
 end SpyneModel.Derive
